@@ -114,7 +114,7 @@ func TestC12(t *testing.T) {
 			cat = append(cat, c12case{Exit: ex, Outs: os, Layout: []string{"main", "named", "two-queues"}[(i+len(ex))%3]})
 		}
 	}
-	n := len(cat)
+	n := len(cat) * 9 // thorough: the whole catalogue under each of the three layouts, three times (timing varies)
 	if e.Tier == "quick" {
 		n = 128
 	}
@@ -125,7 +125,10 @@ func TestC12(t *testing.T) {
 			// spread over the catalogue deterministically, different part per seed
 			idx = (c.Index*37 + int(c.Seed)*11) % len(cat)
 		}
-		cs := cat[idx]
+		cs := cat[idx%len(cat)]
+		if e.Tier != "quick" {
+			cs.Layout = []string{"main", "named", "two-queues"}[(idx/len(cat))%3]
+		}
 		c12run(c, cs, &res)
 		res.Key = cs.String()
 		return res
